@@ -607,7 +607,30 @@ func C13(r *vf.Run) {
 				}
 				prev = mi
 			}
-			call := fmt.Sprintf("EaDump($%06x,$%06x) (start&15=%d, %d bytes)", start, end, start&15, length)
+			// the caller's buffer need only reach the last attached address of the range: a dump whose tail
+			// runs over a hole (or that covers nothing but a hole) still reports the size of the range
+			short := ""
+			if g.Intn(3) == 0 {
+				lastAtt := -1
+				for i := 0; i < length; i++ {
+					if _, ok := shadow[(start+uint32(i))>>4]; ok {
+						lastAtt = i
+					}
+				}
+				if lastAtt+1 < length {
+					keep := lastAtt + 1
+					if g.Intn(3) == 0 {
+						keep += g.Intn(length - lastAtt)
+					}
+					data = data[:keep:keep]
+					if keep == 0 && g.Bool() {
+						data = nil
+					}
+					short = fmt.Sprintf(", buffer of %d bytes (the last attached address is at position %d)", keep, lastAtt)
+					cells["dump-buffer-ends-inside-trailing-hole"]++
+				}
+			}
+			call := fmt.Sprintf("EaDump($%06x,$%06x) (start&15=%d, %d bytes%s)", start, end, start&15, length, short)
 			var n int
 			panicked := func() (p interface{}) {
 				defer func() { p = recover() }()
@@ -782,7 +805,7 @@ func C13(r *vf.Run) {
 	if r.OnlyPhase == "" {
 		r.Require("long:attach-count-65536")
 		r.Require("long:attach-count-65537")
-		for _, c := range []string{"seq:read24", "seq:write", "attach:nested", "attach:wide", "attach:nested-in-wide", "attach:reattach-same", "attach:adjacent-after", "attach:overlap-tail", "dump-boundary:mem>mem", "dump-boundary:mem>hole", "dump-boundary:hole>mem"} {
+		for _, c := range []string{"seq:read24", "seq:write", "attach:nested", "attach:wide", "attach:nested-in-wide", "attach:reattach-same", "attach:adjacent-after", "attach:overlap-tail", "dump-boundary:mem>mem", "dump-boundary:mem>hole", "dump-boundary:hole>mem", "dump-buffer-ends-inside-trailing-hole"} {
 			r.Require(c)
 		}
 	}
